@@ -176,6 +176,14 @@ def certStep (s : CertSt) (toks : List String) : CertSt × String :=
         | none => none
         | some c =>
           if src.startsWith "junk" then (junkNum src).map (fun b => (⟨c, b⟩ : Entry))
+          else if src.startsWith "cutA" || src.startsWith "cutB" then
+            -- the bytes of a multi-signature cut at a place that is no boundary: garbage, but new garbage
+            match splitChar '@' (dropStr 4 src) with
+            | [k, nm] =>
+              match k.toNat?, s.sigs.lookup nm with
+              | some k, some _ => some (⟨c, (if src.startsWith "cutA" then 3000000 else 4000000) + k⟩ : Entry)
+              | _, _ => none
+            | _ => none
           else
             let (nm, idx) := match splitChar '.' src with
               | [nm, i] => (nm, i.toNat?.getD 0)
